@@ -199,16 +199,13 @@ func (v DenseInt64Vector) Permute(pi []int) error {
   if len(pi) != len(v) {
     return fmt.Errorf("Permute(): permutation vector has invalid length!")
   }
-  // permute vector
-  for i := 0; i < len(v); i++ {
-    if pi[i] < 0 || pi[i] >= len(v) {
-      return fmt.Errorf("Permute(): invalid permutation")
-    }
-    if i != pi[i] && pi[i] > i {
-      // permute elements
-      v[pi[i]], v[i] = v[i], v[pi[i]]
-    }
+  if err := checkPermutation(pi, len(v)); err != nil {
+    return fmt.Errorf("Permute(): invalid permutation")
   }
+  // permute vector, v[i] becomes v[pi[i]]
+  applyPermutation(pi, func(i, j int) {
+    v[i], v[j] = v[j], v[i]
+  })
   return nil
 }
 /* sorting
